@@ -83,6 +83,10 @@ def generate(rng, tier='quick', kind=None, mode='history', **kw):
       # wait for an open that is still in flight
       cfg.update({'open_delay': rng.choice([5.0, 12.0, 30.0]), 'open_sync': False})
     quiet = rng.random() < 0.2
+    if rng.random() < 0.25:
+      # a band narrower than a factor of two
+      lo = rng.choice([0.8, 1.0, 1.5])
+      cfg['aperture'].update({'min_load': lo, 'max_load': round(lo * rng.choice([1.3, 1.6]), 3)})
     for _ in range(rng.randint(1, 3) if not quiet else rng.randint(2, 3)):
       c = rng.choice([1, 2, 3, 5, 8, 12, 20])
       svc = max(rng.choice([0.05, 0.2, 0.5]), c * 70.0 / 3000)
@@ -129,6 +133,9 @@ def generate(rng, tier='quick', kind=None, mode='history', **kw):
       t += rng.choice([0.2, 0.5])
       ops.append({'t': round(t, 6), 'op': 'call', 'id': 'c%d' % i, 'timeout': 5.0, 'svc': 0.01, 'kind': 'ok'})
     return {'world': 'w_bal', 'cfg': cfg, 'ops': ops, 'mode': 'history'}
+  # member channels that, like the shipped transports and pools, fail their
+  # outstanding requests in-line when they are closed
+  cfg['close_fails_inflight'] = rng.random() < 0.4
   n_ops = rng.randint(20, 120 if not big else 400)
   cid = 0
   for _ in range(n_ops):
@@ -154,8 +161,19 @@ def generate(rng, tier='quick', kind=None, mode='history', **kw):
                   'kind': 'err' if rng.random() < 0.15 else 'ok'})
       cid += 1
     elif k < 0.76:
-      ops.append({'t': round(t, 6), 'op': 'down', 'member': rng.randrange(n),
+      m_ = rng.randrange(n)
+      ops.append({'t': round(t, 6), 'op': 'down', 'member': m_,
                   'signal': rng.random() < 0.5, 'inflight': rng.random() < 0.6})
+      if cfg['close_fails_inflight'] and rng.random() < 0.4:
+        # a member that went down with requests still outstanding on it leaves
+        # the server set shortly afterwards (after a request or two has found it
+        # down): closing its channel completes those requests inside the removal
+        ops[-1]['inflight'] = False
+        for j_ in range(rng.randint(0, 2)):
+          ops.append({'t': round(t + 0.0005 * (j_ + 1), 6), 'op': 'call', 'id': 'c%d' % cid, 'timeout': 2.0,
+                      'svc': rng.choice([0.05, 0.3]), 'kind': 'ok'})
+          cid += 1
+        ops.append({'t': round(t + 0.002, 6), 'op': 'leave', 'member': m_})
     elif k < 0.84:
       ops.append({'t': round(t, 6), 'op': 'up', 'member': rng.randrange(n)})
     elif k < 0.92:
